@@ -358,6 +358,9 @@ func prop(s cs.Spec) common.Result {
 					}
 				}
 			} else if b.AllHonest || s.ViaAPI {
+				if s.Scheme == "bls12" && blsQuirk(w, s, b, v) {
+					return common.Fail(kit.KnownBLS, "REJECTED an honestly assembled certificate (%s) whose signature satisfies the verification equation in other arrangements: the pairing library's false negative\n%s", vd.err, desc)
+				}
 				return common.Fail("rejects-honest:"+s.Kind, "REJECTED an honestly assembled certificate: %s\n%s", vd.err, desc)
 			}
 		}
@@ -421,4 +424,20 @@ func TestC02Certificates(t *testing.T) {
 		}
 		return genSpec(rt, maxN, schemes)
 	}, prop)
+}
+
+
+// blsQuirk decides whether the rejection of an honest BLS certificate is the known false negative of the pairing library:
+// the repository's scheme rejects the signature although it satisfies the verification equation in other arrangements.
+func blsQuirk(w *cs.World, s cs.Spec, b cs.Built, verifier int) bool {
+	m := w.Members[verifier-1]
+	switch s.Kind {
+	case "qc":
+		return kit.QuirkQC(m, b.QC)
+	case "tc":
+		return kit.QuirkTC(m, b.TC)
+	case "aggqc":
+		return kit.QuirkAgg(m, b.AggQC)
+	}
+	return false
 }
